@@ -11,6 +11,17 @@ import vxlib
 
 # (unit, file, regex, replacement, what it breaks)
 MUTATIONS = {
+    'C15': [
+        ('tls', 'tonic/src/transport/channel/service/tls.rs', r'if !\(alpn_protocol == Some\(ALPN_H2\) \|\| self\.assume_http2\) \{', 'if !(alpn_protocol == Some(ALPN_H2) || !self.assume_http2) {', 'the http2 opt-out is read the wrong way round'),
+        ('tls', 'tonic/src/transport/channel/service/tls.rs', r'let mut roots = RootCertStore::from_iter\(trust_anchors\);', 'let mut roots = RootCertStore::empty(); let _ = trust_anchors;', 'configured trust anchors are dropped'),
+        ('tls', 'tonic/src/transport/channel/service/tls.rs', r'config\.alpn_protocols\.push\(ALPN_H2\.into\(\)\);\n        Ok\(Self \{\n            config', 'Ok(Self {\n            config', 'the client does not offer h2'),
+        ('tls', 'tonic/src/transport/channel/tls.rs', r'Some\(domain\) => domain,\n            None => uri\.host\(\)\.ok_or_else\(Error::new_invalid_uri\)\?,', 'Some(_domain) => uri.host().ok_or_else(Error::new_invalid_uri)?,\n            None => uri.host().ok_or_else(Error::new_invalid_uri)?,', 'the configured domain name is ignored in favour of the URI host'),
+        ('tls', 'tonic/src/transport/server/service/tls.rs', r'let verifier = if client_auth_optional \{', 'let verifier = if !client_auth_optional {', 'client authentication is optional exactly when it should be mandatory'),
+        ('tls', 'tonic/src/transport/server/service/tls.rs', r'None => builder\.with_no_client_auth\(\),\n            Some\(cert\) => \{', 'None => builder.with_no_client_auth(),\n            Some(_) if client_auth_optional => builder.with_no_client_auth(),\n            Some(cert) => {', 'an optional client CA is not used at all'),
+        ('tls', 'tonic/src/transport/channel/service/connector.rs', r'Err\(HttpsUriWithoutTlsSupport\(\(\)\)\.into\(\)\)', 'Ok(BoxedIo::new(io))', 'an https URI without TLS configuration falls back to plaintext'),
+        ('tls', 'tonic/src/transport/server/tls.rs', r'client_auth_optional: optional,', 'client_auth_optional: !optional,', 'the client_auth_optional setter stores the negation'),
+        ('tls', 'tonic/src/transport/server/conn.rs', r'let certs = session\s*\.peer_certificates\(\)\s*\.map\(\|certs\| certs\.to_owned\(\)\.into\(\)\);', 'let certs = None; let _ = session;', 'the handler never sees the peer certificates'),
+    ],
     'C20': [
         ('richerror', 'tonic-types/src/richer_error/mod.rs', r'code: code as i32,', 'code: 2,', 'embedded google.rpc.Status does not carry the outer code'),
         ('richerror', 'tonic-types/src/richer_error/mod.rs', r'message: message\.to_owned\(\),', 'message: String::new(),', 'embedded google.rpc.Status loses the message'),
